@@ -7,10 +7,14 @@ properties that rely on it): `Bch/Generated/Facts.lean` is rewritten from /repo'
 running implementation on every check; each theorem states that a regenerated fact equals what the
 hand-written model assumes.
 -/
-namespace Bch.Tie.Gcs
+namespace Bch.Tie.GcsImmutable
 open Bch Bch.Model
 
-theorem tie_gcs_constants :
-    Generated.gcsKeySize = 16 ∧ Generated.defaultP = 19 ∧ Generated.defaultM = 784931 := by decide +kernel
+/-- no method of gcs.Filter writes receiver state: filters are immutable after construction -/
+theorem tie_gcs_immutable : Generated.gcsWrites.all (fun m => m.2 == 0) = true := by decide +kernel
 
-end Bch.Tie.Gcs
+theorem tie_gcs_methods :
+    ["Match", "MatchAny", "ZipMatchAny", "HashMatchAny"].all (fun n => (Generated.gcsWrites.map (·.1)).contains n) = true := by
+  decide +kernel
+
+end Bch.Tie.GcsImmutable
